@@ -33,8 +33,12 @@ type Obligation struct {
 	idx     int
 	blk     *ssa.BasicBlock // block of the function under verification in which it arises (nil: entry)
 	skipCheck bool          // cover.info not sampled in the quick tier
-	watch   []string // terms to evaluate in a model
+	watch   []watchTerm // terms to evaluate in a model (counterexample replay)
+	Values  map[string]string `json:"values,omitempty"` // label -> value of the watched terms in the solver's model
 }
+
+// watchTerm is one term whose value in a counterexample is read back with get-value.
+type watchTerm struct{ Label, S string }
 
 type item struct {
 	line string
@@ -143,6 +147,9 @@ type FuncVC struct {
 	nfresh   int
 	params   map[string]Term
 	paramList []Term
+	replayable bool        // package-level function over basic types: a counterexample can be run on the real code
+	paramWatch []watchTerm // parameters, read back from a counterexample
+	resWatch   []watchTerm // results at the return being checked
 
 
 	outside   []string // reasons this function is outside the subset
@@ -250,6 +257,12 @@ func (vc *FuncVC) oblige(kind, name, clause string, pos token.Pos, pc, f Term) *
 	for n := 2; vc.hasOb(ob.ID); n++ {
 		ob.ID = fmt.Sprintf("%s~%d", base, n)
 	}
+	if vc.replayable && (vc.cur == nil || !vc.cur.inlined) {
+		ob.watch = append(ob.watch, vc.paramWatch...)
+		if kind == "post" {
+			ob.watch = append(ob.watch, vc.resWatch...)
+		}
+	}
 	vc.obls = append(vc.obls, ob)
 	ob.blk = vc.topBlock
 	vc.items = append(vc.items, item{ob: ob, blk: vc.topBlock})
@@ -272,6 +285,12 @@ func (vc *FuncVC) cover(name string, pos token.Pos, pc Term) {
 	}
 	ob := &Obligation{ID: vc.prop + "/" + vc.key + "/cover:" + name, Prop: vc.prop, Func: vc.key, Kind: kind,
 		Clause: "reachable", Pos: vc.posStr(pos), Expect: "sat", pc: pc, f: tTrue}
+	if vc.replayable && (vc.cur == nil || !vc.cur.inlined) {
+		ob.watch = append(ob.watch, vc.paramWatch...)
+		if kind == "post" {
+			ob.watch = append(ob.watch, vc.resWatch...)
+		}
+	}
 	vc.obls = append(vc.obls, ob)
 	ob.blk = vc.topBlock
 	vc.items = append(vc.items, item{ob: ob, blk: vc.topBlock})
@@ -823,4 +842,58 @@ func (vc *FuncVC) freshRef(s *State, hint string) Term {
 	vc.fresh[r.S] = true
 	vc.freshList = append(vc.freshList, r)
 	return r
+}
+
+
+// ---------------------------------------------------------------------------
+// counterexample replay: which functions can be called from a generated test with values read from a model
+
+func basicReplayType(t types.Type) bool {
+	switch types.TypeString(t, nil) {
+	case "string", "bool", "int", "int64", "float64", "interface{}", "time.Duration", "error", "any":
+		return true
+	}
+	return false
+}
+
+func (vc *FuncVC) initReplay() {
+	fn := vc.fn
+	vc.replayable = false
+	vc.paramWatch, vc.resWatch = nil, nil
+	if fn.Signature.Recv() != nil || fn.Parent() != nil || len(fn.FreeVars) > 0 || fn.Signature.Variadic() {
+		return
+	}
+	for i := 0; i < fn.Signature.Params().Len(); i++ {
+		t := fn.Signature.Params().At(i).Type()
+		if !basicReplayType(t) || types.TypeString(t, nil) == "error" {
+			return
+		}
+	}
+	for i := 0; i < fn.Signature.Results().Len(); i++ {
+		if !basicReplayType(fn.Signature.Results().At(i).Type()) {
+			return
+		}
+	}
+	vc.replayable = true
+}
+
+// watchOf lists the SMT terms that describe a value of a basic Go type.
+func (vc *FuncVC) watchOf(label string, t Term, typ types.Type) []watchTerm {
+	ts := types.TypeString(typ, nil)
+	out := []watchTerm{{label + ":gotype:" + ts, "0"}}
+	if t.Sort == "Iface" {
+		for _, so := range []string{"String", "Real", "Bool", "Int"} {
+			vc.eng.needBox(vc, so)
+		}
+		out = append(out, watchTerm{label + ":dyn", fmt.Sprintf("(i!dyn %s)", t.S)})
+		out = append(out, watchTerm{label + ":String", fmt.Sprintf("(unbox!String (i!pl %s))", t.S)})
+		out = append(out, watchTerm{label + ":Real", fmt.Sprintf("(unbox!Real (i!pl %s))", t.S)})
+		out = append(out, watchTerm{label + ":Bool", fmt.Sprintf("(unbox!Bool (i!pl %s))", t.S)})
+		out = append(out, watchTerm{label + ":Int", fmt.Sprintf("(i!pl %s)", t.S)})
+		for _, bt := range []types.Type{types.Typ[types.String], types.Typ[types.Float64], types.Typ[types.Bool], types.Typ[types.Int], types.Typ[types.Int64]} {
+			out = append(out, watchTerm{fmt.Sprintf("tag:%d:%s", vc.ss.typeTag(bt), bt.String()), "0"})
+		}
+		return out
+	}
+	return append(out, watchTerm{label + ":" + t.Sort, t.S})
 }
